@@ -1,14 +1,25 @@
 // Bounded stand-in (always run, labelled bounded, never counted as proved) for the ACTOR-LEVEL bookkeeping of C11 that is not
 // under contract: create_empty_service / update_service / clear_one_empty_service / remove_empty_service (chrono, NamingUtils,
 // NamespaceIndex calls) and the GLOBAL invariants over sequences of operations, which the per-operation contracts of units
-// service / namingactor do not state.  Every sequence of up to 4 operations out of 15 (2 services x 2 addresses, 2 gRPC
+// service / namingactor do not state.  Every sequence of up to 4 operations out of 20 (2 services x 2 addresses, 2 gRPC
 // connections + HTTP, ephemeral / persistent, remove by owner / by nobody / by the console, disconnect, empty-service clean-up)
 // on the REAL NamingActor; after every step the statement of C11 is checked in full.
 use super::*;
 use crate::naming::service_index::ServiceQueryParam;
 
 #[derive(Clone, Copy, Debug)]
-enum Op { Reg(usize, usize, usize, bool), Del(usize, usize, usize), Disc(usize), Clean(usize), Purge }
+enum Op { Reg(usize, usize, usize, bool), RegT(usize, usize, usize, bool, u8), Del(usize, usize, usize), Disc(usize), Clean(usize), Purge }
+
+/// the update tags the entry points build: 1 = gRPC (batch) register and console update (everything but the ephemeral flag), 2 = HTTP beat
+/// (nothing), 3 = no tag at all with the cluster-sync origin flag, 4 = metadata only
+fn tag_of(kind: u8) -> (Option<InstanceUpdateTag>, bool) {
+    match kind {
+        1 => (Some(InstanceUpdateTag { weight: true, metadata: true, enabled: true, ephemeral: false, from_update: false }), false),
+        2 => (Some(InstanceUpdateTag { weight: false, metadata: false, enabled: false, ephemeral: false, from_update: false }), false),
+        3 => (None, true),
+        _ => (Some(InstanceUpdateTag { weight: false, metadata: true, enabled: false, ephemeral: false, from_update: true }), false),
+    }
+}
 
 fn skey(s: usize) -> ServiceKey { ServiceKey::new("public", "DEFAULT_GROUP", if s == 0 { "svc-a" } else { "svc-b" }) }
 fn client(c: usize) -> Arc<String> { Arc::new(match c { 0 => "".to_string(), 1 => "0_101".to_string(), _ => "0_202".to_string() }) }
@@ -67,7 +78,9 @@ fn vx_bounded_naming_bookkeeping() {
     let mut ops = vec![];
     for s in 0..2 { for a in 0..2 { ops.push(Op::Reg(s, a, 1, true)); } }
     ops.extend([Op::Reg(0, 0, 2, true), Op::Reg(0, 0, 0, true), Op::Reg(0, 0, 0, false), Op::Reg(0, 1, 1, false),
-                Op::Del(0, 0, 1), Op::Del(0, 0, 0), Op::Del(0, 0, 3), Op::Disc(1), Op::Disc(2), Op::Clean(0), Op::Purge]);
+                Op::Del(0, 0, 1), Op::Del(0, 0, 0), Op::Del(0, 0, 3), Op::Disc(1), Op::Disc(2), Op::Clean(0), Op::Purge,
+                // the same address again through the other entry points: partial update tags with either value of the request's ephemeral flag
+                Op::RegT(0, 0, 1, true, 1), Op::RegT(0, 0, 0, true, 2), Op::RegT(0, 0, 0, false, 1), Op::RegT(0, 0, 2, false, 3), Op::RegT(0, 0, 0, true, 4)]);
     let n = ops.len();
     let mut failures: Vec<String> = vec![];
     let mut runs = 0u64;
@@ -83,6 +96,7 @@ fn vx_bounded_naming_bookkeeping() {
                 trace.push(op);
                 match op {
                     Op::Reg(s, a, cl, eph) => { naming.update_instance(&skey(s), inst(s, a, cl, eph), Some(InstanceUpdateTag::default()), false, None); }
+                    Op::RegT(s, a, cl, eph, kind) => { let (tag, from_sync) = tag_of(kind); let mut i = inst(s, a, cl, eph); if kind == 4 { let mut md = HashMap::new(); md.insert("k".to_string(), "v".to_string()); i.metadata = Arc::new(md); } naming.update_instance(&skey(s), i, tag, from_sync, None); }
                     Op::Del(s, a, who) => { let i = inst(s, a, 0, true); let cid = client(who); naming.remove_instance(&skey(s), &i.get_short_key(), if who == 3 { None } else { Some(&cid) }); }
                     Op::Disc(cl) => naming.remove_client_instance(&client(cl)),
                     Op::Clean(s) => {
